@@ -255,5 +255,17 @@ pub fn run(ctx: &Ctx) {
             }
         }
     }
+    // keys with more than 32 counter bits around 2^32 and at their very end
+    for h in [HashId::Sha256_128, HashId::Shake256_192] {
+        for shape in [vec![(4u32, 5u32); 7], vec![(8, 5), (4, 5), (4, 5), (4, 5), (4, 5), (4, 5), (4, 5), (4, 5)]] {
+            let total: u64 = 1u64 << shape.iter().map(|l| l.1).sum::<u32>();
+            for ctr in [(1u64 << 32) - 2, (1u64 << 32) - 1, 1u64 << 32, (1u64 << 33) + 5, total - 2, total - 1] {
+                for accept in [true, false] {
+                    items.push(LedgerCase { hash: h, levels: shape.clone(), state: KeyState::Live(ctr), accept, aux: AuxSel::None, entry: Entry::Sign });
+                }
+                items.push(LedgerCase { hash: h, levels: shape.clone(), state: KeyState::Live(ctr), accept: true, aux: AuxSel::None, entry: Entry::TrySign });
+            }
+        }
+    }
     ctx.enumerate("ledger", items.len() as u64, true, |i| items[i as usize].clone(), check_ledger);
 }
